@@ -21,7 +21,8 @@ import tempfile
 from pathlib import Path
 
 from ..core import Family
-from ..sim.client_pki import CA_CERTS, LOOKALIKES
+from ..sim.client_pki import CA_CERTS, LOOKALIKES, TWIN_CERTS, TWIN_OF
+from ..sim.client_storefault import store_fault
 
 ID = "C03"
 READY = True
@@ -60,7 +61,9 @@ HOSTS = ["localhost", "127.0.0.1", "127.0.0.2"] + list(LOOKALIKES)
 N_PLAIN_HOSTS = 3
 # certificate index -> name in the peer's CertStore; 4 = expired (notAfter in the past), 5 = not valid yet,
 # 6..8 = three certificates issued by the harness CA (for clients that verify the chain: verify_ssl=True)
-CERTS = ["rsa", "ec", "ed", "hostile", "expired", "notyet"] + list(CA_CERTS)
+# 9.. = LOOK-ALIKE certificates (sim/client_pki.py): other DER, but the issuer + serial number (+ subject, validity) of another
+# certificate of the pool around another key, or another serial number around the same key
+CERTS = ["rsa", "ec", "ed", "hostile", "expired", "notyet"] + list(CA_CERTS) + list(TWIN_CERTS)
 READABLE = [0, 1, 2, 4, 5]                        # self-signed certificates cryptography.x509 can load (they have spelled variants)
 CA_FIRST = 6                                      # index of the first CA-issued certificate
 # fingerprint ids: 0..3, 6, 7 = the certificates, 4/5 = near misses of 0/1, 8.. = OTHER SPELLINGS of the same digests
@@ -69,7 +72,22 @@ CA_FIRST = 6                                      # index of the first CA-issued
 N_BASE = 8
 N_FP = N_BASE + 3 * len(READABLE)
 # fingerprint id of each certificate; the CA-issued ones follow the spelled variants
-CERT_FP = [0, 1, 2, 3, 6, 7] + [N_FP + i for i in range(len(CA_CERTS))]
+CERT_FP = [0, 1, 2, 3, 6, 7] + [N_FP + i for i in range(len(CA_CERTS) + len(TWIN_CERTS))]
+# (certificate, its look-alike) as indices into CERTS; SELF_TWINS = the self-signed ones (usable by clients that do not verify a chain)
+TWIN_PAIRS = [(CERTS.index(o), CERTS.index(t)) for t, o in TWIN_OF.items()]
+SELF_TWINS = [i for pr in TWIN_PAIRS for i in pr if not CERTS[i].startswith(("ca_", "tw_serial_ca"))]
+# time that passes without anybody touching the store, in days (a year is 365 or 366 days; negative: the clock was set back)
+AGES = [1, 30, 364, 366, 400, 3650, -30]
+# condition of the store file while a NEW client object is built on it ("" = nothing special); see sim/client_storefault.py
+NEWCLIENT_FAULTS = ["", "locked", "open", "write"]
+
+
+def cert_desc(ci: int) -> str:
+    n = CERTS[ci]
+    if n in TWIN_OF:
+        return (f"{n!r} (a different certificate - other DER, other SHA-256 - made to look like {TWIN_OF[n]!r}: "
+                + ("same key, subject and validity, another serial number)" if n == "tw_key" else "same subject, issuer, serial number and validity around another key)"))
+    return repr(n)
 
 
 def spell(fp: str, j: int) -> str:
@@ -95,7 +113,7 @@ def fp_table(w) -> list[str]:
     near0 = f0[:-1] + ("0" if f0[-1] != "0" else "1")                      # differs in the last hex digit only
     near1 = f1[:7 + 32] + "".join("0" if ch != "0" else "1" for ch in f1[7 + 32:])   # same first half
     base = f + [near0, near1] + [c[n].fingerprint for n in CERTS[4:6]]
-    return base + [spell(base[CERT_FP[ci]], j) for ci in READABLE for j in range(3)] + [c[n].fingerprint for n in CA_CERTS]
+    return base + [spell(base[CERT_FP[ci]], j) for ci in READABLE for j in range(3)] + [c[n].fingerprint for n in CA_CERTS + TWIN_CERTS]
 
 
 # ----------------------------------------------------------------------------
@@ -310,9 +328,10 @@ def model_line(case) -> str:
         elif k == "import":
             ents = ",".join(f"{e[0]}.{e[1]}={e[2]}" for e in op[3]) or "-"
             words.append(f"{'im' if op[1] == 'merge' else 'ir'}:{'u' if op[2] == 'update' else 's'}:{ents}")
-        elif k in ("import_bad", "export_import"):
+        elif k in ("import_bad", "export_import", "age", "newclient"):
             # what the code does: an import that raises is rolled back as a whole (also the DELETE of replace mode);
-            # export followed by import of the same file restores the same (host, port) -> fingerprint map
+            # export followed by import of the same file restores the same (host, port) -> fingerprint map;
+            # time passing / building one more client object on the store (whatever state the file is in) changes no pin
             words.append("im:s:-")
         else:
             raise ValueError(op)
@@ -410,12 +429,16 @@ class Histories(Family):
     def rand_hop(self, rng, keys, allow_patch=True):
         h, p = rng.choice(keys)
         cert = rng.choice([0, 0, 1, 1, 2, 3, 4, 5])
+        if rng.random() < 0.2:
+            cert = rng.choice(SELF_TWINS)       # a certificate and its look-alikes (same issuer + serial / same key)
         patch = ""
         if allow_patch and rng.random() < 0.08:
             patch = rng.choice(["raise", "none"])
         return [h, p, cert, patch]
 
     def rand_op(self, rng, keys):
+        if rng.random() < 0.04:
+            return ["age", rng.choice(AGES)]
         r = rng.random()
         if r < 0.34:
             return ["get"] + self.rand_hop(rng, keys)
@@ -457,6 +480,16 @@ class Histories(Family):
                 other = READABLE[(READABLE.index(ci) + 1) % len(READABLE)]
                 b.append({"tofu": True, "fresh": False, "ops": [["import", "merge", "none", [[0, 1, variant_id(ci, j)]]], ["get", 0, 1, other, ""],
                                                                ["upload", 0, 1, ci, ""], ["get", 0, 1, 3, ""]]})
+        # a certificate and its look-alike (same issuer and serial number around another key; same key, another serial number), both orders
+        for a, t in TWIN_PAIRS:
+            if a in SELF_TWINS:
+                for c1, c2 in ((a, t), (t, a)):
+                    for fresh in (False, True):
+                        b.append({"tofu": True, "fresh": fresh, "ops": [["get", 1, 0, c1, ""], ["get", 1, 0, c2, ""], ["upload", 1, 0, c2, ""], ["trust", 0, 1, c2], ["get", 0, 1, c1, ""]]})
+        # time passes between two visits (the store ops of this family and `fresh` clients open the store file anew)
+        for days in AGES:
+            b.append({"tofu": True, "fresh": True, "ops": [["get", 1, 0, 0, ""], ["upload", 0, 1, 1, ""], ["age", days], ["get", 1, 0, 1, ""], ["upload", 0, 1, 1, ""], ["get", 1, 0, 0, ""]]})
+            b.append({"tofu": True, "fresh": False, "ops": [["get", 1, 0, 0, ""], ["age", days], ["revoke", 2, 1], ["get", 1, 0, 1, ""], ["get", 1, 0, 0, ""]]})
         # overlapping first connections to one unpinned host:port, every pair of readable certificates
         for c1 in READABLE:
             for c2 in READABLE:
@@ -580,6 +613,20 @@ class Histories(Family):
                             st["raised"] = None
                         except ValueError:
                             st["raised"] = "ValueError"
+                    elif k == "age":
+                        # ["age", days]: `days` days pass without anybody touching the store - every timestamp in the file
+                        # moves that far into the past (what the file looks like to code that starts `days` days later)
+                        self.age_store(db, op[1])
+                    elif k == "newclient":
+                        # ["newclient", fault]: the application builds one more GeminiClient on the same store while the store
+                        # file is in the given condition.  A constructor that raises leaves the application with its old client
+                        try:
+                            with store_fault(op[1] if case["tofu"] else None, db):
+                                nc = mk()
+                            client = nc
+                            st["raised"] = None
+                        except Exception as e:  # noqa: BLE001
+                            st["raised"] = type(e).__name__
                     elif k == "export_import":
                         # backup and restore: ["export_import", "merge" | "replace" | "clear-merge"]
                         f = Path(tmp) / "export.toml"
@@ -603,6 +650,27 @@ class Histories(Family):
                 os.environ["HOME"] = old_home
             shutil.rmtree(tmp, ignore_errors=True)
         return steps
+
+    @staticmethod
+    def age_store(db: Path, days: int):
+        """move first_seen / last_seen of every row `days` days into the past, with plain SQL (no nauyaca code involved)"""
+        import datetime
+        import sqlite3
+
+        conn = sqlite3.connect(str(db))
+        try:
+            rows = list(conn.execute("SELECT rowid, first_seen, last_seen FROM known_hosts"))
+            for rid, fs, ls in rows:
+                new = []
+                for v in (fs, ls):
+                    try:
+                        new.append((datetime.datetime.fromisoformat(v) - datetime.timedelta(days=days)).isoformat())
+                    except (TypeError, ValueError):
+                        new.append(v)
+                conn.execute("UPDATE known_hosts SET first_seen = ?, last_seen = ? WHERE rowid = ?", (new[0], new[1], rid))
+            conn.commit()
+        finally:
+            conn.close()
 
     def stray_stores(self, home: Path):
         """what appeared in the (empty) home directory during the history: [relative path, rows if it is a pin store]"""
@@ -722,7 +790,7 @@ class Histories(Family):
                             break
                     elif pin != pres:
                         if not last or res[0] == "ok":
-                            return ("accepted-with-different-cert", f"{where}: hop {j} to {key} ({HOSTS[h]!r}) pinned to fingerprint {pin} presented {pres} and was accepted (result {res}, {len(conns)} connections; client certificate: {bool(case.get('ident'))}, store operations on the client's own store object: {bool(case.get('own'))})")
+                            return ("accepted-with-different-cert", f"{where}: hop {j} to {key} ({HOSTS[h]!r}) pinned to fingerprint {pin} presented {pres} = certificate {cert_desc(cert)} and was accepted (result {res}, {len(conns)} connections; client certificate: {bool(case.get('ident'))}, store operations on the client's own store object: {bool(case.get('own'))}, a new client object per call: {bool(case.get('fresh'))}); history so far {case['ops'][:i + 1]!r}")
                         if res[0] != "changed":
                             return ("changed-not-reported", f"{where}: hop {j} pinned {pin}, presented {pres}: result {res} is not a certificate-changed error")
                         if res[1:] != [pin, pres, h, p]:
@@ -737,11 +805,19 @@ class Histories(Family):
                     touched = set(op_keys(op))
                     if any(kk not in touched for kk in bad):
                         return ("other-key-influenced", f"{where}: pins of {[kk for kk in bad if kk not in touched]} changed by a call that did not name them")
-                    return ("first-use-not-pinned", f"{where}: store after the accepted call is {sorted(after.items())}, expected {sorted(exp.items())}")
+                    return ("first-use-not-pinned", f"{where}: store after the accepted call is {sorted(after.items())}, expected {sorted(exp.items())}; history so far {case['ops'][:i + 1]!r}")
                 cur = after
             else:
                 # store operations: only the frame part of the property is checked here (C12 owns their semantics)
                 touched = None
+                if k in ("age", "newclient"):
+                    # neither the passing of time nor the construction of one more client object is a trust-store operation
+                    if after != cur:
+                        what = (f"{op[1]} days passed without anybody touching the store" if k == "age" else
+                                f"one more GeminiClient was built on the store (store file: {op[1] or 'in order'}; constructor raised: {st.get('raised')})")
+                        return ("pins-changed-without-operation", f"{where}: {what}; pins before {sorted(cur.items())}, after {sorted(after.items())}; history so far {case['ops'][:i + 1]!r}")
+                    cur = after
+                    continue
                 if k in ("trust", "revoke"):
                     touched = {(op[1], op[2])}
                 elif k == "revoke_host":
@@ -764,6 +840,8 @@ class Histories(Family):
                 kinds.add(f"{op[0]}:{st['result'][0]}")
             elif op[0] == "import":
                 kinds.add(f"import-{op[1]}-{op[2]}")
+            elif op[0] == "age":
+                kinds.add("age>1y" if op[1] > 365 else "age<1y")
         return ("on " if case["tofu"] else "off ") + f"len={min(len(case['ops']), 40) // 5 * 5}+ " + ",".join(sorted(kinds))[:90]
 
 
@@ -785,6 +863,11 @@ class Configured(Histories):
     GROUPS = [[3, 4, 5, 6], [7, 8]]
 
     def rand_store_op(self, rng, keys):
+        r = rng.random()
+        if r < 0.10:
+            return ["newclient", rng.choice(NEWCLIENT_FAULTS)]
+        if r < 0.16:
+            return ["age", rng.choice(AGES)]
         r = rng.random()
         if r < 0.30:
             ents = []
@@ -810,6 +893,12 @@ class Configured(Histories):
             h, p = rng.choice(keys)
             ents.append([h, p, rng.choice([CERT_FP[c] for c in READABLE])])
         return ["import", rng.choice(["merge", "merge", "replace"]), rng.choice(["none", "skip", "update"]), ents]
+
+    def rand_hop(self, rng, keys, allow_patch=True):
+        hop = Histories.rand_hop(self, rng, keys, allow_patch)
+        if rng.random() < 0.1:
+            hop[2] = rng.choice([i for pr in TWIN_PAIRS for i in pr])      # also the CA-issued pair
+        return hop
 
     def rand_fetch(self, rng, keys):
         r = rng.random()
@@ -859,6 +948,26 @@ class Configured(Histories):
                     b.append({"tofu": True, "fresh": False, "own": True, "ident": False, "ops": [
                         ["trust", a, 1, 0], ["trust", bb, 1, 1], ["revoke_host", bb], ["upload", a, 1, 1, ""],
                         ["chain", [[bb, 1, 2, ""], [a, 1, 0, ""]]]]})
+        # (4) a certificate and its look-alike on one host:port, in both orders (also the pair issued by the harness CA)
+        for a, t in TWIN_PAIRS:
+            for c1, c2 in ((a, t), (t, a)):
+                for kind in ("get", "upload"):
+                    for ident in (False, True):
+                        b.append({"tofu": True, "fresh": False, "own": ident, "ident": ident, "ops": [
+                            ["get", 1, 0, c1, ""], [kind, 1, 0, c2, ""], ["get", 1, 0, c1, ""], ["chain", [[0, 1, c2, ""], [1, 0, c2, ""]]]]})
+        # (5) one more client object is built while the store file cannot be used (locked by another connection, cannot be
+        #     opened, cannot be written), then the pinned hosts present another certificate / an unpinned host is visited
+        for fault in NEWCLIENT_FAULTS:
+            for kind in ("get", "upload"):
+                for own in (False, True):
+                    b.append({"tofu": True, "fresh": False, "own": own, "ident": False, "ops": [
+                        ["get", 1, 0, 0, ""], ["upload", 0, 1, 1, ""], ["newclient", fault], [kind, 1, 0, 1, ""], ["get", 2, 1, 2, ""], ["get", 2, 1, 0, ""],
+                        ["get", 1, 0, 0, ""], ["chain", [[2, 1, 2, ""], [0, 1, 2, ""]]]]})
+        # (6) time passes between two visits; afterwards the application starts again (a new client object on the old store)
+        for days in AGES:
+            for kind in ("get", "upload"):
+                b.append({"tofu": True, "fresh": False, "own": True, "ident": False, "ops": [
+                    ["get", 1, 0, 0, ""], ["upload", 0, 1, 1, ""], ["age", days], ["newclient", ""], [kind, 1, 0, 1, ""], ["get", 0, 1, 1, ""], ["get", 1, 0, 0, ""]]})
         return b
 
     def gen(self, rng: random.Random, n: int):
@@ -894,8 +1003,14 @@ class Configured(Histories):
                 kinds.add(f"{op[0]}:{st['result'][0]}")
             elif op[0] in ("import_bad", "export_import"):
                 kinds.add(f"{op[0]}-{op[1]}")
+            elif op[0] == "newclient":
+                kinds.add(f"newclient-{op[1] or 'plain'}:{'raised' if st.get('raised') else 'built'}")
+            elif op[0] == "age":
+                kinds.add("age>1y" if op[1] > 365 else "age<1y")
         hs = {k[0] for op in case["ops"] for k in op_keys(op)}
         names = "lookalike" if any(h >= N_PLAIN_HOSTS for h in hs) else "plain"
+        if any(CERTS[hop[2]] in TWIN_CERTS for op in case["ops"] if op[0] in ("get", "upload", "chain") for hop in ([op[1:5]] if op[0] != "chain" else op[1])):
+            names += "+twincert"
         return (("on " if case["tofu"] else "off ") + ("own " if case.get("own") else "cli ") + ("ident " if case.get("ident") else "anon ")
                 + names + " " + ",".join(sorted(kinds))[:80])
 
@@ -940,6 +1055,7 @@ class SmallScope(Family):
     oracle = Histories.oracle
     oracle_steps = Histories.oracle_steps
     stray_stores = Histories.stray_stores
+    age_store = staticmethod(Histories.age_store)
 
     def key(self, case, obs):
         res = [st["result"][0] if st["result"] else "-" for st in obs]
